@@ -93,13 +93,19 @@ def expected_reply(dev, req):
     return None
 
 
-def one_round(rng, nclients, delay, seq, fault=False):
+def one_round(rng, nclients, delay, seq, fault=False, kind="ledger"):
     dev = TaggedDevice(rng, delay)
     world = env.World(device=dev)
     dev.world = world
     env.install_transport(world)
-    env.set_platform("Ledger")
-    dongle = HSM2Dongle(False)
+    if kind == "tcp":
+        # the TCP transport used for the simulator and (as a base class) for SGX
+        from ledger.hsm2dongle_tcp import HSM2DongleTCP
+        env.set_platform("X86")
+        dongle = HSM2DongleTCP("127.0.0.1", 1, False)
+    else:
+        env.set_platform("Ledger")
+        dongle = HSM2Dongle(False)
     proto = HSM2ProtocolLedger(None, dongle)
     # bring-up against the same device (signer mode)
     orig_handle = proto.handle_request
@@ -210,7 +216,8 @@ def run(ctx):
            "samples": [], "distribution": {"clients": {}, "apdus": 0}, "corr_errors": [], "notes": []}
     for r in range(rounds):
         n = rng.randint(2, 16)
-        dev, reqs, replies = one_round(rng, n, 0.002 if r % 2 else 0.0005, r, fault=(r % 3 == 2))
+        dev, reqs, replies = one_round(rng, n, 0.002 if r % 2 else 0.0005, r, fault=(r % 3 == 2),
+                                       kind=("tcp" if r % 4 == 3 else "ledger"))
         res["evaluations"] += 1
         res["distinct"] += 1
         res["distribution"]["clients"][n] = res["distribution"]["clients"].get(n, 0) + 1
